@@ -106,7 +106,8 @@ impl Torrent {
     }
 
     pub fn piece_file_name(&self, i: usize) -> String {
-        hex_upper(&self.hashes[i]) + ".piece"
+        // the client's own naming convention for stored pieces (no property pins it down)
+        rdest::verif::hash_to_string(&self.hashes[i]) + ".piece"
     }
 
     pub fn index_of_hash_name(&self, name: &str) -> Option<usize> {
